@@ -1,8 +1,402 @@
-(* C03 -- proofs about the binary gateway model (work in progress). *)
-From Coq Require Import List NArith Bool Lia.
-From Muscle Require Import Gen.Consts Gw.GwBase Gw.FrameModel.
+(* C03 -- proofs about the binary gateway model (MessageIOGateway): the send loop, the receive
+   loop as a refinement of the byte-at-a-time machine, the split lemma, decoding of a framed
+   stream, and the end-to-end theorems, for any codec satisfying the premise [codec_sync]
+   (default encoding: discharged at the end of this file; zlib: ZlibProofs.v). *)
+From Coq Require Import List NArith ZArith Bool Lia ZifyBool.
+From Muscle Require Import Gen.Consts Gw.GwBase Gw.GwLemmas Gw.FrameModel Gw.TransportProofs.
 Import ListNotations.
 Local Open Scope N_scope.
 
 Lemma f_hs_is_8 : f_hs = 8.
 Proof. reflexivity. Qed.
+Lemma f_scratch_ge_hs : f_hs <= f_scratch.
+Proof. vm_compute. discriminate. Qed.
+
+Section FrameProofs.
+  Variables CS CR : Type.
+  Variable flat : CS -> bytes -> CS * bytes.
+  Variable unflat : CR -> bytes -> CR * option bytes.
+  Variable max_in : N.
+  Variable cs0 : CS.
+  Variable cr0 : CR.
+
+  Notation fsend := (fsend CS).
+  Notation frecv := (frecv CR).
+  Notation f_fill := (f_fill CS flat).
+  Notation f_out_loop := (f_out_loop CS flat).
+  Notation f_do_output := (f_do_output CS flat).
+  Notation f_turn := (f_turn CR unflat max_in).
+  Notation f_in_loop := (f_in_loop CR unflat max_in).
+  Notation f_do_input := (f_do_input CR unflat max_in).
+  Notation f_byte := (f_byte CR unflat max_in).
+  Notation f_feed := (f_feed CR unflat max_in).
+  Notation f_header := (f_header max_in).
+
+  (* ==================================================================== sender *)
+  Fixpoint cs_after (c : CS) (ms : list bytes) : CS :=
+    match ms with [] => c | m :: t => cs_after (fst (flat c m)) t end.
+  Fixpoint wire_from (c : CS) (ms : list bytes) : bytes :=
+    match ms with [] => [] | m :: t => snd (flat c m) ++ wire_from (fst (flat c m)) t end.
+
+  Lemma cs_after_app c a b : cs_after c (a ++ b) = cs_after (cs_after c a) b.
+  Proof. revert c. induction a as [|m a IH]; intros c; cbn; auto. Qed.
+
+  Lemma wire_from_app c a b : wire_from c (a ++ b) = wire_from c a ++ wire_from (cs_after c a) b.
+  Proof. revert c. induction a as [|m a IH]; intros c; cbn; auto. now rewrite IH, app_assoc. Qed.
+
+  Hypothesis flat_len : forall c m, f_hs <= blen (snd (flat c m)).
+
+  Definition fs_rem (st : fsend) : bytes :=
+    match fs_buf st with Some b => drop (fs_off st) b | None => [] end ++ wire_from (fs_cs st) (fs_q st).
+  Definition fs_wf (st : fsend) : Prop :=
+    match fs_buf st with Some b => fs_off st < blen b | None => fs_off st = 0 end.
+  Definition fs_SI (st : fsend) (ms : list bytes) : Prop :=
+    fs_wf st /\ exists done, ms = done ++ fs_q st /\ fs_cs st = cs_after cs0 done.
+
+  Lemma f_fill_some st ms st1 b :
+    fs_SI st ms -> f_fill st = Some (st1, b) ->
+    fs_SI st1 ms /\ fs_buf st1 = Some b /\ fs_rem st1 = fs_rem st.
+  Proof.
+    intros [Hwf (dn & Hms & Hcs)] H. unfold FrameModel.f_fill in H.
+    destruct (fs_buf st) as [b0|] eqn:Eb.
+    - inversion H; subst. repeat split; auto. exists dn; auto.
+    - destruct (fs_q st) as [|m q] eqn:Eq; [discriminate|].
+      destruct (flat (fs_cs st) m) as [c' f] eqn:Ef. inversion H; subst; clear H.
+      split; [|split; auto].
+      + split.
+        * unfold fs_wf. cbn [fs_buf fs_off]. pose proof (flat_len (fs_cs st) m) as Hl. rewrite Ef in Hl.
+          cbn [snd] in Hl. rewrite f_hs_is_8 in Hl. lia.
+        * exists (dn ++ [m]). cbn. split; [now rewrite <- app_assoc|].
+          rewrite cs_after_app, <- Hcs. cbn. now rewrite Ef.
+      + unfold fs_rem. cbn [fs_buf fs_off fs_q fs_cs]. rewrite Eb, Eq. cbn [wire_from app].
+        rewrite Ef. cbn [fst snd]. now rewrite drop_0.
+  Qed.
+
+  Lemma f_fill_none st : f_fill st = None -> fs_rem st = [].
+  Proof.
+    unfold FrameModel.f_fill, fs_rem. destruct (fs_buf st); [discriminate|].
+    destruct (fs_q st) as [|m q]; [reflexivity|]. destruct (flat (fs_cs st) m). discriminate.
+  Qed.
+
+  Lemma f_send_more_spec st b maxb scr st2 x maxb' short :
+    fs_buf st = Some b -> fs_off st < blen b ->
+    f_send_more CS st b maxb scr = (st2, x, maxb', short) ->
+    st2 = mkFS (fs_q st) (fs_buf st) (fs_off st + blen x) (fs_cs st) /\
+    drop (fs_off st) b = x ++ drop (fs_off st + blen x) b /\
+    blen x = N.min (N.min maxb (blen b - fs_off st)) (io_k scr) /\
+    maxb' = maxb - blen x /\
+    short = (blen x <? N.min maxb (blen b - fs_off st)).
+  Proof.
+    intros Hb Hoff H. unfold f_send_more in H.
+    destruct (io_write (take (N.min maxb (blen b - fs_off st)) (drop (fs_off st) b)) scr) as [y s1] eqn:Ew.
+    inversion H; subst; clear H.
+    apply io_write_take in Ew. destruct Ew as (Hd & Hbx & _). rewrite blen_drop in Hbx.
+    split; auto. split; [rewrite Hd at 1; f_equal; now rewrite drop_drop|].
+    split; [lia|]. split; auto.
+  Qed.
+
+  Lemma f_out_spec ms scr : forall st maxb acc st' acc',
+    fs_SI st ms -> f_out_loop scr st maxb acc = (st', acc') ->
+    fs_SI st' ms /\ exists x, acc' = acc ++ x /\ fs_rem st = x ++ fs_rem st'.
+  Proof.
+    assert (Hstop : forall st acc, fs_SI st ms -> fs_SI st ms /\ exists x, acc = acc ++ x /\ fs_rem st = x ++ fs_rem st).
+    { intros. split; auto. exists []. now rewrite app_nil_r. }
+    assert (Hturn : forall scr st maxb acc st' acc',
+               (forall st3 maxb3 acc3, fs_SI st3 ms ->
+                   match scr with [] => (st3, acc3) | _ :: scr' => f_out_loop scr' st3 maxb3 acc3 end = (st', acc') ->
+                   fs_SI st' ms /\ exists x, acc' = acc3 ++ x /\ fs_rem st3 = x ++ fs_rem st') ->
+               fs_SI st ms -> f_out_loop scr st maxb acc = (st', acc') ->
+               fs_SI st' ms /\ exists x, acc' = acc ++ x /\ fs_rem st = x ++ fs_rem st').
+    { clear scr. intros scr st maxb acc st' acc' Hrec HSI H.
+      assert (Hunf : f_out_loop scr st maxb acc =
+                if maxb =? 0 then (st, acc) else
+                match f_fill st with
+                | None => (st, acc)
+                | Some (st1, b) =>
+                    let '(st2, x, maxb', short) := f_send_more CS st1 b maxb scr in
+                    if short then (st2, acc ++ x) else
+                    let st3 := if fs_off st2 =? blen b then mkFS (fs_q st2) None 0 (fs_cs st2) else st2 in
+                    match scr with [] => (st3, acc ++ x) | _ :: scr' => f_out_loop scr' st3 maxb' (acc ++ x) end
+                end) by (destruct scr; reflexivity).
+      rewrite Hunf in H. clear Hunf.
+      destruct (maxb =? 0); [inversion H; subst; apply Hstop; auto|].
+      destruct (f_fill st) as [[st1 b]|] eqn:Efill; [|inversion H; subst; apply Hstop; auto].
+      destruct (f_fill_some _ _ _ _ HSI Efill) as (HSI1 & Hb1 & Hrem1). rewrite <- Hrem1.
+      assert (Hoff1 : fs_off st1 < blen b) by (destruct HSI1 as [Hw _]; unfold fs_wf in Hw; now rewrite Hb1 in Hw).
+      destruct (f_send_more CS st1 b maxb scr) as [[[st2 x] maxb'] short] eqn:Esm.
+      destruct (f_send_more_spec _ _ _ _ _ _ _ _ Hb1 Hoff1 Esm) as (-> & Hd & Hbx & -> & ->).
+      assert (Hrem2 : fs_rem st1 = x ++ fs_rem (mkFS (fs_q st1) (fs_buf st1) (fs_off st1 + blen x) (fs_cs st1))).
+      { unfold fs_rem. cbn. rewrite Hb1. rewrite Hd at 1. now rewrite app_assoc. }
+      assert (HSI2 : fs_off st1 + blen x < blen b -> fs_SI (mkFS (fs_q st1) (fs_buf st1) (fs_off st1 + blen x) (fs_cs st1)) ms).
+      { intros Hlt. destruct HSI1 as [_ Hd1]. split; [unfold fs_wf; cbn; now rewrite Hb1|exact Hd1]. }
+      destruct (blen x <? N.min maxb (blen b - fs_off st1)) eqn:Eshort.
+      - inversion H; subst; clear H. split; [apply HSI2; lia|]. exists x. auto.
+      - cbn [fs_off fs_q fs_cs] in H.
+        destruct (fs_off st1 + blen x =? blen b) eqn:Efull.
+        + apply Hrec in H.
+          * destruct H as (HSI' & y & Hacc & Hrem). split; auto. exists (x ++ y).
+            split; [now rewrite Hacc, app_assoc|]. rewrite Hrem2, <- app_assoc. f_equal.
+            rewrite <- Hrem. unfold fs_rem. cbn. rewrite Hb1. rewrite drop_all by lia. reflexivity.
+          * destruct HSI1 as [_ Hd1]. split; [reflexivity|exact Hd1].
+        + apply Hrec in H.
+          * destruct H as (HSI' & y & Hacc & Hrem). split; auto. exists (x ++ y).
+            split; [now rewrite Hacc, app_assoc|]. now rewrite Hrem2, <- app_assoc, <- Hrem.
+          * apply HSI2. lia. }
+    induction scr as [|k scr IH]; intros st maxb acc st' acc' HSI H.
+    - eapply Hturn; eauto. intros st3 maxb3 acc3 H3 E. cbn in E. inversion E; subst. apply Hstop; auto.
+    - eapply Hturn; eauto. intros st3 maxb3 acc3 H3 E. cbn in E. eapply IH; eauto.
+  Qed.
+
+  Lemma f_do_output_spec ms st maxb scr st' x :
+    fs_SI st ms -> f_do_output st maxb scr = (st', x) -> fs_SI st' ms /\ fs_rem st = x ++ fs_rem st'.
+  Proof.
+    unfold FrameModel.f_do_output. intros HSI H.
+    destruct (f_out_spec ms _ _ _ _ _ _ HSI H) as (HSI' & y & Hy & Hrem). cbn in Hy. subst y. auto.
+  Qed.
+
+  Lemma f_do_output_progress ms st maxb scr st' x :
+    fs_SI st ms -> fs_rem st <> [] -> 1 <= maxb -> 1 <= io_k scr ->
+    f_do_output st maxb scr = (st', x) -> x <> [].
+  Proof.
+    unfold FrameModel.f_do_output. intros HSI Hrem Hm Hk H.
+    assert (Hunf : f_out_loop scr st maxb [] =
+              if maxb =? 0 then (st, []) else
+              match f_fill st with
+              | None => (st, [])
+              | Some (st1, b) =>
+                  let '(st2, x, maxb', short) := f_send_more CS st1 b maxb scr in
+                  if short then (st2, [] ++ x) else
+                  let st3 := if fs_off st2 =? blen b then mkFS (fs_q st2) None 0 (fs_cs st2) else st2 in
+                  match scr with [] => (st3, [] ++ x) | _ :: scr' => f_out_loop scr' st3 maxb' ([] ++ x) end
+              end) by (destruct scr; reflexivity).
+    rewrite Hunf in H. clear Hunf.
+    assert (E0 : (maxb =? 0) = false) by lia. rewrite E0 in H.
+    destruct (f_fill st) as [[st1 b]|] eqn:Efill; [|apply f_fill_none in Efill; contradiction].
+    destruct (f_fill_some _ _ _ _ HSI Efill) as (HSI1 & Hb1 & Hrem1).
+    assert (Hoff1 : fs_off st1 < blen b) by (destruct HSI1 as [Hw _]; unfold fs_wf in Hw; now rewrite Hb1 in Hw).
+    destruct (f_send_more CS st1 b maxb scr) as [[[st2 y] maxb'] short] eqn:Esm.
+    destruct (f_send_more_spec _ _ _ _ _ _ _ _ Hb1 Hoff1 Esm) as (-> & Hd & Hbx & -> & ->).
+    assert (Hy : y <> []) by (intros ->; cbn in Hbx; lia).
+    destruct (blen y <? N.min maxb (blen b - fs_off st1)).
+    - inversion H; subst. exact Hy.
+    - cbn [app] in H. destruct scr as [|k scr'].
+      + inversion H; subst. exact Hy.
+      + set (st3 := if _ =? _ then _ else _) in H.
+        assert (HSI3 : fs_SI st3 ms).
+        { subst st3. cbn [fs_off fs_q fs_cs]. destruct HSI1 as [_ Hd1].
+          destruct (fs_off st1 + blen y =? blen b) eqn:Efull; split; auto.
+          - reflexivity.
+          - unfold fs_wf. cbn. rewrite Hb1. lia. }
+        destruct (f_out_spec ms _ _ _ _ _ _ HSI3 H) as (_ & z & -> & _).
+        destruct y; [contradiction|discriminate].
+  Qed.
+
+  (* ==================================================================== receiver *)
+  (* the C++ allocates the next receive buffer before it knows whether a byte will arrive, so
+     "no buffer" and "scratch buffer with nothing in it" are the same protocol state *)
+  Definition fr_norm (st : frecv) : frecv :=
+    match fr_buf st with
+    | Some (_, []) => mkFR None (fr_err st) (fr_cr st)
+    | _ => st
+    end.
+
+  Definition fr_wf (st : frecv) : Prop :=
+    fr_err st = false ->
+    match fr_buf st with
+    | None => True
+    | Some (cap, got) => (blen got < f_hs -> cap = f_scratch) /\ (f_hs <= blen got -> blen got < cap)
+    end.
+
+  Definition mkR (cap : N) (got : bytes) (cr : CR) : frecv := mkFR (Some (cap, got)) false cr.
+
+  Lemma fr_norm_nonempty cap got e cr : got <> [] -> fr_norm (mkFR (Some (cap, got)) e cr) = mkFR (Some (cap, got)) e cr.
+  Proof. destruct got; [contradiction|reflexivity]. Qed.
+
+  Lemma fr_norm_none e cr : fr_norm (mkFR None e cr) = mkFR None e cr.
+  Proof. reflexivity. Qed.
+
+  Lemma fr_norm_idem st : fr_norm (fr_norm st) = fr_norm st.
+  Proof. unfold fr_norm. destruct st as [[[cap [|b got]]|] e cr]; reflexivity. Qed.
+
+  Lemma f_byte_norm st b : fr_wf st -> fr_err st = false -> f_byte (fr_norm st) b = f_byte st b.
+  Proof.
+    intros Hwf He. destruct st as [[[cap [|b0 got]]|] e cr]; try reflexivity.
+    cbn in He. subst e. specialize (Hwf eq_refl). cbn in Hwf. destruct Hwf as [Hc _].
+    rewrite Hc by lia. reflexivity.
+  Qed.
+
+  Lemma f_feed_err st x : fr_err st = true -> f_feed st x = (st, []).
+  Proof.
+    intros He. induction x as [|b t IH]; cbn [FrameModel.f_feed]; auto.
+    unfold FrameModel.f_byte. rewrite He, IH. reflexivity.
+  Qed.
+
+  (* ---- the split lemma *)
+  Lemma f_feed_app a : forall st b,
+    f_feed st (a ++ b) =
+    let '(st1, o1) := f_feed st a in let '(st2, o2) := f_feed st1 b in (st2, o1 ++ o2).
+  Proof.
+    induction a as [|x a IH]; intros st b; cbn [app FrameModel.f_feed].
+    - destruct (f_feed st b). reflexivity.
+    - destruct (f_byte st x) as [st1 o1]. rewrite IH.
+      destruct (f_feed st1 a) as [st2 o2]. destruct (f_feed st2 b) as [st3 o3].
+      now rewrite app_assoc.
+  Qed.
+
+  (* ---- absorbing a chunk that does not reach a boundary *)
+  Lemma f_byte_partial cap got cr b :
+    (blen got + 1 < f_hs \/ (f_hs <= blen got /\ blen got + 1 < cap)) ->
+    f_byte (mkR cap got cr) b = (mkR cap (got ++ [b]) cr, []).
+  Proof.
+    intros H. unfold FrameModel.f_byte, mkR. cbn [fr_err fr_buf fr_cr].
+    rewrite blen_app. change (blen [b]) with 1.
+    destruct H as [H|[H1 H2]].
+    - assert (E1 : (blen got <? f_hs) = true) by lia. assert (E2 : (f_hs <=? blen got + 1) = false) by lia.
+      now rewrite E1, E2.
+    - assert (E1 : (blen got <? f_hs) = false) by lia. assert (E2 : (blen got + 1 =? cap) = false) by lia.
+      now rewrite E1, E2.
+  Qed.
+
+  Lemma feed_partial x : forall got cap cr,
+    (blen got < f_hs -> cap = f_scratch) ->
+    (blen got + blen x < f_hs \/ (f_hs <= blen got /\ blen got + blen x < cap)) ->
+    f_feed (fr_norm (mkR cap got cr)) x = (fr_norm (mkR cap (got ++ x) cr), []).
+  Proof.
+    induction x as [|b t IH]; intros got cap cr Hc H.
+    - now rewrite app_nil_r.
+    - cbn [FrameModel.f_feed]. rewrite blen_cons in H.
+      rewrite f_byte_norm; [|intros _; unfold mkR; cbn [fr_buf]; split; [auto|lia]|reflexivity].
+      rewrite f_byte_partial by lia.
+      assert (Hn : fr_norm (mkR cap (got ++ [b]) cr) = mkR cap (got ++ [b]) cr).
+      { apply fr_norm_nonempty. destruct got; discriminate. }
+      unfold bytes, byte in *. rewrite <- Hn, IH.
+      + now rewrite <- app_assoc.
+      + rewrite blen_app. change (blen [b]) with 1. intros. apply Hc. lia.
+      + rewrite blen_app. change (blen [b]) with 1. lia.
+  Qed.
+
+  (* ---- a chunk that ends exactly at the end of the header *)
+  Lemma feed_hdr_exact x : forall got cap cr,
+    cap = f_scratch -> x <> [] -> blen got + blen x = f_hs ->
+    f_feed (fr_norm (mkR cap got cr)) x = f_hdr_done CR unflat max_in cr cap (got ++ x).
+  Proof.
+    induction x as [|b t IH]; intros got cap cr Hc Hx H; [contradiction|].
+    cbn [FrameModel.f_feed]. rewrite blen_cons in H.
+    rewrite f_byte_norm; [|intros _; unfold mkR; cbn [fr_buf]; split; [auto|lia]|reflexivity].
+    destruct t as [|b' t'].
+    - cbn [FrameModel.f_feed]. unfold FrameModel.f_byte, mkR. cbn [fr_err fr_buf fr_cr].
+      rewrite blen_app. change (blen [b]) with 1. change (blen []) with 0 in H.
+      assert (E1 : (blen got <? f_hs) = true) by lia. assert (E2 : (f_hs <=? blen got + 1) = true) by lia.
+      rewrite E1, E2. unfold bytes, byte in *. destruct (f_hdr_done CR unflat max_in cr cap (got ++ [b])). now rewrite app_nil_r.
+    - rewrite f_byte_partial by (rewrite blen_cons in H; lia).
+      assert (Hn : fr_norm (mkR cap (got ++ [b]) cr) = mkR cap (got ++ [b]) cr).
+      { apply fr_norm_nonempty. destruct got; discriminate. }
+      unfold bytes, byte in *. rewrite <- Hn, IH; auto.
+      + rewrite <- app_assoc. cbn [app]. destruct (f_hdr_done CR unflat max_in cr cap (got ++ b :: b' :: t')). reflexivity.
+      + discriminate.
+      + rewrite blen_app. change (blen [b]) with 1. lia.
+  Qed.
+
+  (* ---- a chunk that ends exactly at the end of the body *)
+  Lemma feed_body_exact x : forall got cap cr,
+    f_hs <= blen got -> x <> [] -> blen got + blen x = cap ->
+    f_feed (mkR cap got cr) x = f_done CR unflat cr (got ++ x).
+  Proof.
+    induction x as [|b t IH]; intros got cap cr Hg Hx H; [contradiction|].
+    cbn [FrameModel.f_feed]. rewrite blen_cons in H.
+    destruct t as [|b' t'].
+    - cbn [FrameModel.f_feed]. unfold FrameModel.f_byte, mkR. cbn [fr_err fr_buf fr_cr].
+      rewrite blen_app. change (blen [b]) with 1. change (blen []) with 0 in H.
+      assert (E1 : (blen got <? f_hs) = false) by lia. assert (E2 : (blen got + 1 =? cap) = true) by lia.
+      rewrite E1, E2. unfold bytes, byte in *. destruct (f_done CR unflat cr (got ++ [b])). now rewrite app_nil_r.
+    - rewrite f_byte_partial by (rewrite blen_cons in H; lia).
+      rewrite IH; auto.
+      + rewrite <- app_assoc. cbn [app]. destruct (f_done CR unflat cr (got ++ b :: b' :: t')). reflexivity.
+      + rewrite blen_app. change (blen [b]) with 1. lia.
+      + discriminate.
+      + rewrite blen_app. change (blen [b]) with 1. lia.
+  Qed.
+
+  (* ---- one Read *)
+  Lemma f_recv_more_spec got target maxb scr pipe got' maxb' scr' pipe' short :
+    f_recv_more got target maxb scr pipe = (got', maxb', scr', pipe', short) ->
+    exists x, got' = got ++ x /\ pipe = x ++ pipe' /\
+      blen x = N.min (N.min maxb (if blen got <? target then target - blen got else 0)) (N.min (io_k scr) (blen pipe)) /\
+      maxb' = maxb - blen x /\ scr' = io_tl scr /\
+      short = (blen x <? N.min maxb (if blen got <? target then target - blen got else 0)).
+  Proof.
+    unfold f_recv_more.
+    destruct (io_read (N.min maxb (if blen got <? target then target - blen got else 0)) scr pipe) as [[x p1] s1] eqn:Er.
+    apply io_read_spec in Er. destruct Er as (Hp & Hb & Hs).
+    intros H. inversion H; subst; clear H. exists x. repeat split; auto.
+  Qed.
+
+  Lemma f_header_ge cap hdr cap1 : f_header cap hdr = Some cap1 -> f_hs <= cap1.
+  Proof.
+    unfold FrameModel.f_header.
+    destruct (_ && _); [|discriminate]. destruct (rd32 hdr <=? max_in); [|discriminate].
+    destruct (rd32 hdr <=? _).
+    - intros H; inversion H; subst. Show. lia.
+    - destruct (f_hs <=? u32 (f_hs + rd32 hdr)) eqn:E; [|discriminate]. intros H; inversion H; subst. lia.
+  Qed.
+
+  Definition turn_res (t : fturn CR) : frecv * list bytes * bytes :=
+    match t with FEnd _ st o p => (st, o, p) | FNext _ st _ _ p o => (st, o, p) end.
+  Definition turn_scr (t : fturn CR) (scr : list N) : Prop :=
+    match t with FEnd _ _ _ _ => True | FNext _ _ _ scr' _ _ => (length scr' < length scr)%nat end.
+
+  Lemma mkR_norm cap got cr : f_hs <= blen got -> fr_norm (mkR cap got cr) = mkR cap got cr.
+  Proof. intros H. apply fr_norm_nonempty. intros ->. cbn in H. rewrite f_hs_is_8 in H. lia. Qed.
+
+  (* ---- body phase *)
+  Lemma body_phase_spec cr cap1 got1 maxb1 scr1 pipe1 outs :
+    f_hs <= blen got1 -> blen got1 <= cap1 ->
+    let '(st', outs', pipe') := turn_res (f_body_phase CR unflat cr cap1 got1 maxb1 scr1 pipe1 outs) in
+    fr_wf st' /\ exists x o, pipe1 = x ++ pipe' /\ outs' = outs ++ o /\
+      (if blen got1 =? cap1 then f_done CR unflat cr got1 else f_feed (mkR cap1 got1 cr) x) = (fr_norm st', o) /\
+      (blen got1 = cap1 -> x = []) /\
+      (blen got1 < cap1 -> blen x = N.min (N.min maxb1 (cap1 - blen got1)) (N.min (io_k scr1) (blen pipe1))).
+  Proof.
+    intros Hg Hc. unfold f_body_phase.
+    destruct (blen got1 <? cap1) eqn:Elt.
+    - destruct (f_recv_more got1 cap1 maxb1 scr1 pipe1) as [[[[got2 maxb2] scr2] pipe2] short] eqn:Er.
+      destruct (f_recv_more_spec _ _ _ _ _ _ _ _ _ _ Er) as (x & -> & Hp & Hb & -> & -> & ->).
+      rewrite Elt in *.
+      assert (Ene : (blen got1 =? cap1) = false) by lia. rewrite Ene.
+      destruct (blen x <? N.min maxb1 (cap1 - blen got1)) eqn:Eshort.
+      + cbn [turn_res]. split.
+        * intros _. cbn [fr_buf]. rewrite blen_app. split; lia.
+        * exists x, []. rewrite app_nil_r. repeat split; auto; try lia.
+          rewrite <- (mkR_norm cap1 got1 cr Hg). apply feed_partial; [lia|]. right. lia.
+      + rewrite blen_app.
+        destruct (blen got1 + blen x =? cap1) eqn:Efull.
+        * assert (Hx : x <> []) by (intros ->; cbn in Efull; lia).
+          pose proof (feed_body_exact x got1 cap1 cr Hg Hx ltac:(lia)) as Hf.
+          unfold f_done in *. destruct (unflat cr (got1 ++ x)) as [cr' [m|]]; cbn [turn_res].
+          -- split; [intros _; exact I|]. exists x, [m]. repeat split; auto; lia.
+          -- split; [intros E; discriminate|]. exists x, []. rewrite app_nil_r. repeat split; auto; lia.
+        * cbn [turn_res]. split.
+          -- intros _. cbn [fr_buf]. rewrite blen_app. split; lia.
+          -- exists x, []. rewrite app_nil_r. repeat split; auto; try lia.
+             rewrite <- (mkR_norm cap1 got1 cr Hg). apply feed_partial; [lia|]. right. lia.
+    - assert (Eeq : (blen got1 =? cap1) = true) by lia. rewrite Eeq.
+      unfold f_done. destruct (unflat cr got1) as [cr' [m|]]; cbn [turn_res].
+      + split; [intros _; exact I|]. exists [], [m]. repeat split; auto; lia.
+      + split; [intros E; discriminate|]. exists [], []. rewrite app_nil_r. repeat split; auto; lia.
+  Qed.
+
+  Lemma body_phase_scr cr cap1 got1 maxb1 scr1 pipe1 outs :
+    blen got1 < cap1 -> 1 <= maxb1 -> turn_scr (f_body_phase CR unflat cr cap1 got1 maxb1 scr1 pipe1 outs) scr1.
+  Proof.
+    intros Hlt Hm. unfold f_body_phase.
+    assert (Elt : (blen got1 <? cap1) = true) by lia. rewrite Elt.
+    destruct (f_recv_more got1 cap1 maxb1 scr1 pipe1) as [[[[got2 maxb2] scr2] pipe2] short] eqn:Er.
+    destruct (f_recv_more_spec _ _ _ _ _ _ _ _ _ _ Er) as (x & -> & Hp & Hb & -> & -> & ->).
+    rewrite Elt in *.
+    destruct (blen x <? N.min maxb1 (cap1 - blen got1)) eqn:Eshort; [exact I|].
+    assert (Hk : 1 <= io_k scr1) by lia.
+    assert (Hs : (length (io_tl scr1) < length scr1)%nat) by (destruct scr1; cbn in *; lia).
+    destruct (blen (got1 ++ x) =? cap1); [|exact Hs].
+    destruct (unflat cr (got1 ++ x)) as [cr' [m|]]; [exact Hs|exact I].
+  Qed.
+End FrameProofs.
